@@ -621,7 +621,10 @@ func main() {
 		os.Exit(0)
 	}
 
-	r.Require(poolOK, "address pool is not strictly ascending")
+	r.Require(poolOK, "address pool is not strictly ascending or no case-adversarial address triple was found")
+	r.Require(poolOK && hexDisagree(pool[2], pool[3]) && hexDisagree(pool[1], pool[2]) && hexDisagree(pool[1], pool[3]),
+		"the validators of the equal-power initial vectors (which tie) do not include a pair whose byte order and Address.Hex() order disagree")
+	r.Set("tie_addresses", fmt.Sprintf("main pool %s < %s < %s as bytes, reverse order as Hex() strings", pool[1].Hex(), pool[2].Hex(), pool[3].Hex()))
 	r.Require(bi(capv).Cmp(capBig) == 0, fmt.Sprintf("MaxTotalVotingPower in the code (%d) is not floor(MaxInt64/8) (%v)", capv, capBig))
 
 	var stages []stage
@@ -722,7 +725,7 @@ func main() {
 		})
 	}
 
-	r.Set("rule", "E2 explicit-state search on the real types.ValidatorSet. Roots: NewValidatorSet of 13 power vectors (sizes 1-4, powers {1,2,3,10,1000}, and [cap], [(cap-1)/2 x2], [1,cap-2]) over 6 byte-order-adversarial addresses. "+
+	r.Set("rule", "E2 explicit-state search on the real types.ValidatorSet. Roots: NewValidatorSet of 13 power vectors (sizes 1-4, powers {1,2,3,10,1000}, and [cap], [(cap-1)/2 x2], [1,cap-2]) over 6 addresses: one differing from all others in the high byte, three (found at start-up with the real Address.Hex()) that pairwise differ first at a letter nibble spelled in opposite checksum case so that byte order and Hex() string order disagree - they are the members of the equal-power vectors [1,1], [1,1,1], [2,2,1,1], which tie - one differing from its neighbour in the last byte only, and ff..ff; the wide pool (27) and the executor keys contain such pairs too (equal-power newcomers / members 0,1 of the 3-equal base). "+
 		"Operations from every state: IncrementProposerPriority(t in {1,2,7}); UpdateWithChangeSet(cs) for EVERY change set of <= k entries on distinct addresses over {add a new address (2 candidates for sets of <=2, else 1; a removed address can re-join) with power p, set an existing power to p, remove an existing validator}, p in {1,5,1000,cap-filling}, "+
 		"which includes remove-all and total-above-cap sets; plus every individually invalid entry {power -1 on each address, -cap, cap+1, removal of an unknown address} and every duplicate-address pair {(5,5),(5,1000),(5,remove),(remove,remove)} next to every choice of <= k-1 resp. k-2 partner entries {power 5, remove} on the other addresses; "+
 		"EVERY distinct permutation of every change set is executed on its own copy. Stages: A = k<=2, all histories of depth 3; B = k<=3, depth 2; C = k<=3, depth 3; D = k<=3, depth 4 (quick runs A only; thorough runs A,B then C,D until the deadline). "+
